@@ -36,14 +36,14 @@ theorem HR.store_eq {μ : AMap} {st st' : SState} {h : Heap} (he : st'.store = s
 /-- a step of the semantics that leaves the store alone (binding a variable, setting `last`) -/
 theorem Inv5.restate {st' : SState} (hinv : Inv5 s0 CS Γ μ st g l m out) (he : st'.store = st.store) (hgenv : st'.genv = st.genv)
     (hlast : st'.last = st.last) (hout : st'.out = st.out) : Inv5 s0 CS Γ μ st' g l m out :=
-  hinv.move (grow_store_eq he) hgenv hlast hout (hinv.hr.store_eq he) hinv.pool
+  hinv.move (grow_store_eq he) hgenv hlast hout (hinv.hr.store_eq he) hinv.pool hinv.mok
 
 theorem relG_bind5 (hok : GamOK Γ) (hinv : Inv5 s0 CS Γ μ st g l m out) (b k : Nat) (hm : (b, k) ∈ Γ) (v : SVal) (mv : Value)
     (hv : VRh μ st m.heap v mv) :
     Inv5 s0 CS Γ μ (st.bind ⟨b, .global k⟩ v) (setGlobalArr g k mv) l m out := by
   have hst : (st.bind ⟨b, .global k⟩ v).store = st.store := by simp [SState.bind, isGlobalSlot]
   have hgr : Grow μ st m.heap μ (st.bind ⟨b, .global k⟩ v) m.heap := grow_store_eq hst
-  refine ⟨?_, ?_, hinv.hr.store_eq hst, by simpa [SState.bind, isGlobalSlot] using hinv.out, hinv.pool⟩
+  refine ⟨?_, ?_, hinv.hr.store_eq hst, by simpa [SState.bind, isGlobalSlot] using hinv.out, hinv.pool, hinv.mok⟩
   · intro b' k' hm' w hw
     simp only [SState.bind, isGlobalSlot, ↓reduceIte] at hw
     obtain ⟨u1, u2⟩ := gam_unique hok hm hm'
